@@ -161,6 +161,7 @@ func runC03(c *sim.Ctx) *sim.Violation {
 	}
 	c.DistinctStr(presence(a) + feat)
 	c.Count(fmt.Sprintf("probe.remaining-length-%d-byte-form", gen.SizeClass(len(frame))))
+	boundaryProbes(c, frame)
 	if c.WantSample() {
 		c.Sample(fmt.Sprintf("%s (%s) frame %s decoded to the values the specification gives", typ, feat, hexs(frame)))
 	}
